@@ -65,8 +65,9 @@ SHAPES = [
     # (file, regex finding candidate statements, regex the candidate must match with named groups -> lean defs, min count)
     ("count-min min buckets", CM_I, r"if\s*\(\s*num_buckets\s*<[^)]*\)\s*throw",
      r"if\s*\(\s*num_buckets\s*<\s*(?P<wc_cm_MIN_BUCKETS>\d+)\s*\)\s*throw", 1),
-    ("count-min max cells", CM_I, r"if\s*\(\s*num_buckets\s*\*\s*num_hashes\s*[<>=]+[^)]*\)",
-     r"if\s*\(\s*num_buckets\s*\*\s*num_hashes\s*>=\s*1\s*<<\s*(?P<wc_cm_LG_MAX_CELLS>\d+)\s*\)", 1),
+    # accepted forms: `num_buckets * num_hashes >= 1 << 30` and the 64-bit form `static_cast<uint64_t>(num_buckets) * num_hashes >= (1ULL << 30)`
+    ("count-min max cells", CM_I, r"if\s*\(\s*(?:static_cast<uint64_t>\(num_buckets\)|num_buckets)\s*\*\s*num_hashes\s*[<>=]+[^{;]*\{",
+     r"if\s*\(\s*(?:static_cast<uint64_t>\(num_buckets\)|num_buckets)\s*\*\s*num_hashes\s*>=\s*\(?\s*1(?:ULL)?\s*<<\s*(?P<wc_cm_LG_MAX_CELLS>\d+)\s*\)?\s*\)\s*\{", 1),
     ("varopt first byte (writer)", VO_I, r"first_byte\s*=\s*\(preLongs[^;]*;",
      r"first_byte\s*=\s*\(preLongs\s*&\s*(?P<wc_vo_PRELONGS_MASK>0x[0-9a-fA-F]+)\)\s*\|\s*\(\(static_cast<uint8_t>\(rf_\)\)\s*<<\s*(?P<wc_vo_RF_SHIFT>\d+)\)\s*;", 2),
     ("varopt first byte (reader, preamble longs)", VO_I, r"preamble_longs\s*=\s*first_byte[^;]*;",
